@@ -44,6 +44,26 @@ from multipledispatch.variadic import isvariadic
 from multipledispatch import conflict as md_conflict
 from multipledispatch.dispatcher import variadic_signature_matches
 
+from funsor.terms import Funsor as _Funsor          # noqa: E402
+from funsor.domains import Real as _Real            # noqa: E402
+
+
+class Source(_Funsor):
+    """harness-defined intermediate term class: Source ⊂ Funsor"""
+
+    def __init__(self, name):
+        super().__init__(OrderedDict(), _Real)
+        self.name = name
+
+
+class Sensor(Source):
+    """Sensor ⊂ Source ⊂ Funsor"""
+
+    def __init__(self, name, gain=1):
+        super().__init__(name)
+        self.gain = gain
+
+
 GEN = LEAN / "FunsorVerif" / "Gen"
 SKIP_MODULES = ("funsor.torch", "funsor.jax", "funsor.pyro", "funsor.minipyro", "funsor.distribution",
                 "funsor.compat", "funsor.einsum.numpy_map")
@@ -1182,6 +1202,33 @@ def pyrepr(U, tr):
     raise ValueError(tr)
 
 
+def base_class_union_types(U):
+    """Unions whose members are NON-leaf classes (Funsor, op bases, harness-defined Source ⊂ Funsor,
+    Sensor ⊂ Source), and the parametrised subjects to put against them"""
+    import funsor.ops as ops
+    from funsor.terms import Funsor, Number, Binary, Unary
+    from funsor.tensor import Tensor
+    import funsor.domains as Dm
+    c = lambda x: ("c", U.ids[x])                   # noqa: E731
+    g = lambda x, *a: ("g", U.ids[x], tuple(a))     # noqa: E731
+    s_, i_, nd = c(str), c(int), c(np.ndarray)
+    ten = g(Tensor, nd, ("t", (("t", (s_, c(Dm.BintType))),)), s_)
+    num = g(Number, i_, s_)
+    sen = g(Sensor, s_, i_)
+    src = g(Source, s_)
+    u = lambda *m: ("u", tuple(m))                  # noqa: E731
+    unions = [u(g(Number), g(Funsor)), u(g(Tensor), g(Source)), u(g(Number), g(Source)), u(g(Number), g(Tensor)),
+              u(g(Sensor), g(Number)), u(c(ops.AssociativeOp), i_), u(c(ops.op.Op), s_), u(c(ops.op.BinaryOp), c(ops.ExpOp)),
+              u(g(Funsor), i_), u(g(Source), c(ops.op.Op))]
+    subjects = [ten, num, sen, src, g(Tensor), g(Sensor), g(Source), g(Funsor), c(ops.AddOp), c(ops.ExpOp),
+                g(Binary, c(ops.AddOp), sen, num), g(Binary, c(ops.AddOp), ten, ten), g(Unary, c(ops.ExpOp), sen),
+                ("t", (sen, ten)), ("t", (num,)), ("f", sen), ("f", ten)]
+    nested = [g(Binary, c(ops.AddOp), unions[0], g(Funsor)), g(Binary, c(ops.AddOp), unions[2], g(Funsor)),
+              g(Binary, c(ops.op.Op), unions[1], unions[0]), ("tv", unions[0]), ("tv", unions[1]), ("t", (unions[2], unions[0])),
+              ("f", unions[1]), ("f", unions[0]), g(Unary, unions[7], unions[1])]
+    return set(unions) | set(subjects) | set(nested)
+
+
 def part_subtype(ctx, U, D, observed, use_driver=True):
     rng = ctx.rng
     sig_pool = signature_types(U, D)
@@ -1206,6 +1253,7 @@ def part_subtype(ctx, U, D, observed, use_driver=True):
     pool |= {("tb",), ("fb",), ("any",), ("c", U.kTuple), ("c", U.kFs), ("t", (i_, i_)), ("t", (i_,)), ("tv", i_),
              ("tv", ("any",)), ("tv", o_), ("f", i_), ("f", ("any",)), ("u", (i_, s_)), ("t", (i_, ("tv", s_))),
              ("t", (("u", (i_, s_)), i_)), ("tv", ("u", (i_, s_))), ("f", ("t", (i_,))), ("f", ("u", (i_, s_)))}
+    pool |= base_class_union_types(U)
     pool = {canon(U, t) for t in pool}
     # the clean stream stays out of the region of KF-tuple-subclass and of Any-inside-Union
     clean = sorted((t for t in pool if kf_free(t) and union_ok(t)), key=repr)
@@ -1295,6 +1343,26 @@ def check_axioms(ctx, U, clean, real):
                      python=PY_SUB.format(what="reflexivity", body=f"a = {pyrepr(U, a)}\nprint(R(a, a))\nFAILS = (R(a, a) is False)"))
             break
     ctx.count("refl:true", int(np.trace(T.astype(int))))
+    # a union on the right is the OR of its members, for every class / parametrised / container type on the left
+    for j, u_ in enumerate(clean):
+        if u_[0] != "u":
+            continue
+        for i, a in enumerate(clean):
+            if a[0] in ("u", "any") or real[i, j] == "E":
+                continue
+            ms = [real_sub(U, a, m) for m in u_[1]]
+            if any(len(x) > 1 or x == "E" for x in ms):
+                continue
+            ctx.count("union-is-or:checked")
+            if (real[i, j] == "T") != any(x == "T" for x in ms):
+                ctx.fail("input", "C16.union-is-not-or-of-members",
+                         witness=dict(sub=tshow(U, a), union=tshow(U, u_), against_union=str(real[i, j]),
+                                      against_members=dict(zip([tshow(U, m) for m in u_[1]], ms)), tree=[a, u_]),
+                         expected="a <= Union[b, c] iff a <= b or a <= c", got=f"{real[i, j]} vs members {ms}",
+                         python=PY_SUB.format(what="a union is the or of its members",
+                                              body=f"a = {pyrepr(U, a)}\nu = {pyrepr(U, u_)}\nms = typing.get_args(u)\n"
+                                                   "print(R(a, u), [R(a, m) for m in ms])\nFAILS = (R(a, u) is not any(R(a, m) is True for m in ms))"))
+                return
     # transitivity over ALL triples: T[a,b] & T[b,c] -> not F[a,c]
     Ti = T.astype(np.int32)
     two = (Ti @ Ti) > 0            # exists b
@@ -2299,7 +2367,7 @@ for order in itertools.permutations(range(len(SUBJECTS))):
 
 def container_scenarios(U):
     import funsor.ops as ops
-    from funsor.terms import Funsor, Number, Variable, Reduce, Unary, Stack
+    from funsor.terms import Funsor, Number, Variable, Reduce, Unary, Stack, Binary
     from funsor.tensor import Tensor
     import funsor.domains as Dm
     c = lambda x: ("c", U.ids[x])            # noqa: E731
@@ -2325,6 +2393,13 @@ def container_scenarios(U):
              patterns=[(c(ops.op.Op), g(Reduce)), (c(ops.op.Op), g(Reduce, assoc, fun, ("f", vb))),
                        (c(ops.op.Op), g(Reduce, assoc, fun, ("f", vr)))],
              subjects=[(c(ops.ExpOp), red(("f", vb))), (c(ops.ExpOp), red(("f", vr))), (c(ops.ExpOp), red(("f", v0)))]),
+        dict(name="union-with-base-class-member", key=Unary,
+             patterns=[(c(ops.op.Op), ("any",)),      # (a bare Funsor here would be incomparable to the top-level Union below)
+                       (c(ops.op.Op), g(Binary, addop, ("u", (g(Number), g(Source))), fun)),
+                       (c(ops.op.Op), g(Binary, addop, ("u", (g(Number), fun)), fun)),
+                       (c(ops.op.Op), ("u", (g(Tensor), g(Source))))],
+             subjects=[(c(ops.ExpOp), g(Binary, addop, g(Sensor, s_, c(int)), num)), (c(ops.ExpOp), g(Binary, addop, ten, ten)),
+                       (c(ops.ExpOp), g(Sensor, s_, c(int))), (c(ops.ExpOp), ten), (c(ops.ExpOp), num)]),
         dict(name="frozenset-of-tuples", key=Reduce,
              patterns=[(assoc, fsC), (assoc, ("f", ("t", (s_, g(Tensor))))), (assoc, ("f", ("t", (s_, g(Number))))), (assoc, ("f", tupC))],
              subjects=[(addop, ("f", ("t", (s_, ten)))), (addop, ("f", ("t", (s_, num)))), (addop, ("f", ("t", (s_, vb)))), (addop, ("f", s_))]),
@@ -2366,6 +2441,23 @@ def part_container_registries(ctx, U, use_driver=True):
         for sj in subjects:
             f = d.dispatch(*map(typing_wrap, map(deep_type, sj)))
             want.append(getattr(f, "default", f)(*sj) if f is not None else None)
+        # brute-force most specific match: set-theoretic membership of the subject types in each pattern
+        # (sem_subset), specificity by the python reference of the relation — independent of the real code
+        ptrees = [tuple(canon(U, t) for t in p) for p in sc["patterns"]]
+        for j, tr in enumerate(subj_trees):
+            M = [i for i, p in enumerate(ptrees) if len(p) == len(tr) and all(sem_subset(U, a, b) for a, b in zip(tr, p))]
+            best = [i for i in M if all(all(py_sub(U, x, y, kf=False) for x, y in zip(ptrees[i], ptrees[k])) for k in M)]
+            ctx.count("container:brute-force-oracle")
+            if len(best) == 1 and want[j] != best[0]:
+                ctx.fail("input", "C16.chosen-rule-not-most-specific",
+                         witness=dict(registry=sc["name"], subject=[tshow(U, t) for t in tr],
+                                      patterns=[[tshow(U, t) for t in p] for p in ptrees], matching=M, most_specific=best[0], chosen=want[j]),
+                         expected=f"rule #{best[0]}", got=f"rule #{want[j]}",
+                         python=PY_CONTAINER.format(name=sc["name"], order="(all)", key=cname(key),
+                                                    patterns=", ".join("(" + "".join(pyrepr(U, t) + ", " for t in p) + ")" for p in ptrees),
+                                                    subjects=", ".join("(" + "".join(pysrc_value(U, t) + ", " for t in x) + ")" for x in subj_trees))
+                         + f"\nr = fresh()\ngot = r.dispatch(KEY, *SUBJECTS[{j}])(*SUBJECTS[{j}])\nprint('subject {j} ->', got)\nFAILS = (got != {best[0]})\n")
+                return
         if use_driver:
             reqs = [f"C16 dispatchx ({' '.join(sigsx(e) for e in enc)}) ({' '.join(map(str, order0))}) (" +
                     " ".join("(w " + tsx(t) + ")" if t[0] != "g" else "(n " + tsx(t) + ")" for t in tr) + ")"
